@@ -69,4 +69,31 @@ theorem futures_read_seq (step : σ → κ → σ × ρ) (st0 : Nat → σ) (q0 
       simp [partRun_length, execState]
     · rw [hq, ih (q0 ++ [(p, c)]), hst]
 
+
+theorem futures_ge (q0 cs : List (Nat × κ)) : ∀ s ∈ futures q0 cs, (batch s.1 q0).length ≤ s.2 := by
+  induction cs generalizing q0 with
+  | nil => intro s hs; simp [futures] at hs
+  | cons pc cs ih =>
+    obtain ⟨p, c⟩ := pc
+    intro s hs
+    simp only [futures, add, List.mem_cons] at hs
+    rcases hs with rfl | hs
+    · exact Nat.le_refl _
+    · have := ih (q0 ++ [(p, c)]) s hs
+      rw [batch_append, List.length_append] at this
+      omega
+
+/-- no two futures of a pipeline share a slot -/
+theorem futures_nodup (q0 cs : List (Nat × κ)) : (futures q0 cs).Nodup := by
+  induction cs generalizing q0 with
+  | nil => simp [futures]
+  | cons pc cs ih =>
+    obtain ⟨p, c⟩ := pc
+    simp only [futures, add, List.nodup_cons]
+    refine ⟨?_, ih _⟩
+    intro hmem
+    have := futures_ge (q0 ++ [(p, c)]) cs _ hmem
+    simp [batch_append, batch_cons_same, batch_nil] at this
+    omega
+
 end Olric.Pipeline
